@@ -17,6 +17,7 @@ import (
 	"encoding/json"
 	"fmt"
 	"io/ioutil"
+	"net"
 	"os"
 	"os/exec"
 	"regexp"
@@ -29,6 +30,9 @@ import (
 	"time"
 
 	"github.com/gorilla/websocket"
+	"github.com/practable/relay/internal/access"
+	"github.com/practable/relay/internal/crossbar"
+	"github.com/practable/relay/internal/deny"
 	"github.com/practable/relay/internal/permission"
 	"github.com/practable/relay/internal/ttlcode"
 	"github.com/practable/relay/verifharness/lib"
@@ -36,7 +40,7 @@ import (
 )
 
 type Op struct {
-	K  string `json:"k"`            // Submit Exchange Sweep Purge Tick Count
+	K  string `json:"k"`            // Submit Exchange Sweep Purge Tick Count | Wrong (e2e: code C presented on the path of another topic, variant T)
 	C  uint64 `json:"c,omitempty"`  // code index: 1.. in order of issue; >= 1000 never issued (malformed stream)
 	T  uint64 `json:"t,omitempty"`  // token identity
 	B  uint64 `json:"b,omitempty"`  // booking index
@@ -70,7 +74,7 @@ func (o Op) coq() string {
 	switch o.K {
 	case "Submit":
 		return lib.App("Submit", lib.N(o.C), lib.N(o.T), lib.N(o.B))
-	case "Exchange":
+	case "Exchange", "Wrong":
 		return lib.App("Exchange", lib.N(o.C))
 	case "Purge":
 		return lib.App("Purge", lib.N(o.B))
@@ -109,6 +113,13 @@ func (c Case) coq() string {
 	outs := make([]string, len(c.Outs))
 	for i, o := range c.Outs {
 		outs[i] = o.coq()
+	}
+	if c.Kind == "e2e" {
+		ops := make([]string, len(c.Ops))
+		for i, o := range c.Ops {
+			ops[i] = lib.Tuple(lib.Bool(o.K == "Wrong"), o.coq())
+		}
+		return lib.App("CSeqW", lib.Z(c.T0), lib.Z(c.TTL), lib.List(ops), lib.List(outs))
 	}
 	return lib.App("CSeq", lib.Z(c.T0), lib.Z(c.TTL), coqOps(c.Ops), lib.List(outs))
 }
@@ -440,18 +451,25 @@ func oracleSeq(c Case, idx int, res *lib.Result) {
 					f.purged = true
 				}
 			}
+		case "Wrong":
+			if f, ok := codes[o.C]; ok {
+				f.gone = true // presented: whatever the path, the code has been exchanged
+			}
+			if ob.K == "T" {
+				bad(i, "wrong-path-admitted", site, fmt.Sprintf("code #%d was presented on the path of another topic and the connection was let in", o.C))
+			}
 		case "Exchange":
 			f, ok := codes[o.C]
 			if ob.K == "T" {
 				switch {
 				case !ok:
 					bad(i, "unissued-code-accepted", site, fmt.Sprintf("code #%d was never issued", o.C))
+				case now > f.issuedAt+c.TTL:
+					bad(i, "exchanged-after-ttl", site, fmt.Sprintf("code #%d issued at +%ds with ttl %ds was honoured at +%ds", o.C, f.issuedAt, c.TTL, now))
 				case f.used:
 					bad(i, "code-exchanged-twice", site, fmt.Sprintf("code #%d had already been exchanged successfully", o.C))
 				case f.gone:
 					bad(i, "code-exchanged-twice", site, fmt.Sprintf("code #%d had already been presented", o.C))
-				case now > f.issuedAt+c.TTL:
-					bad(i, "exchanged-after-ttl", site, fmt.Sprintf("code #%d issued at +%ds with ttl %ds was honoured at +%ds", o.C, f.issuedAt, c.TTL, now))
 				case f.purged:
 					bad(i, "survived-purge", site, fmt.Sprintf("code #%d of booking %q was honoured after that booking was purged", o.C, bookings[f.b]))
 				case ob.T != f.t || ob.B != f.b:
@@ -495,6 +513,8 @@ func histString(ops []Op) string {
 			xs = append(xs, fmt.Sprintf("Purge booking %d", o.B))
 		case "Tick":
 			xs = append(xs, fmt.Sprintf("Tick %ds", o.Dt))
+		case "Wrong":
+			xs = append(xs, fmt.Sprintf("Present #%d on another topic's path", o.C))
 		default:
 			xs = append(xs, o.K)
 		}
@@ -637,7 +657,15 @@ func genE2E(r *lib.Rng) Case {
 			sub()
 		case x < 8:
 			if len(issued) > 0 {
-				c.Ops = append(c.Ops, Op{K: "Exchange", C: issued[r.Intn(len(issued))]})
+				k := issued[r.Intn(len(issued))]
+				if r.Chance(1, 3) {
+					c.Ops = append(c.Ops, Op{K: "Wrong", C: k, T: uint64(r.Intn(3))})
+					if r.Bool() {
+						c.Ops = append(c.Ops, Op{K: "Exchange", C: k}) // ... and then on its own path
+					}
+				} else {
+					c.Ops = append(c.Ops, Op{K: "Exchange", C: k})
+				}
 			}
 		default:
 			b := uint64(r.Range(1, 3))
@@ -683,6 +711,18 @@ func (e *e2e) runE2E(c *Case, topic string) error {
 			}
 			uris[o.C] = uri
 			c.Outs = append(c.Outs, Out{K: "C", C: o.C})
+		case "Wrong":
+			// the same code on the path of another topic: never let in, and the code is spent
+			c.Outs = append(c.Outs, Out{K: "R"})
+			if u := wrongPath(uris[o.C], topic, o.T); u != "" {
+				if conn, _, err := lib.Dial(u, nil); err == nil {
+					e.hold(conn)
+					if _, data, err := lib.ReadOne(conn, 120*time.Millisecond); err == nil && strings.HasPrefix(string(data), "probe-") {
+						c.Outs[len(c.Outs)-1] = Out{K: "T", T: 1}
+					}
+					conn.Close()
+				}
+			}
 		case "Exchange":
 			if e.admitted(uris[o.C], peer, &pm, fmt.Sprintf("%s-%d", topic, i)) {
 				var tb uint64
@@ -704,6 +744,23 @@ func (e *e2e) runE2E(c *Case, topic string) error {
 		}
 	}
 	return nil
+}
+
+// wrongPath rewrites the uri a session returned so that it names another topic (still under /session/)
+func wrongPath(uri, topic string, variant uint64) string {
+	if uri == "" {
+		return ""
+	}
+	var other string
+	switch variant % 3 {
+	case 0:
+		other = "other-" + topic
+	case 1:
+		other = topic + "x"
+	default:
+		other = topic + "/sub"
+	}
+	return strings.Replace(uri, "/session/"+topic+"?", "/session/"+other+"?", 1)
 }
 
 func (e *e2e) runE2ERace(c *Case, topic string) error {
@@ -901,11 +958,44 @@ func runChild(res *lib.Result, seed int64) {
 // childE2E runs the relay cases in a process of their own (a relay that crashes must not take the
 // harness down): reads the cases from inPath, writes them back with observations to outPath.
 type e2eFile struct {
+	TTL        int64    `json:"ttl"` // 0: the relay as shipped (30 s codes); else a relay assembled around a store with this lifetime
 	Cases      []Case   `json:"cases"`
 	Codes      []string `json:"codes"`
 	Notes      []string `json:"notes"`
 	BadFormat  int      `json:"bad_format"`
 	Duplicates int      `json:"duplicates"`
+}
+
+// startRelayTTL assembles the relay exactly as relay.Relay does, but around a code store with a short
+// lifetime (relay.Relay always uses the 30 s default), so that expiry can be watched end to end.
+func startRelayTTL(ttl int64) *lib.Relay {
+	ps := lib.FreePorts(2)
+	r := &lib.Relay{
+		AccessURL: "http://127.0.0.1:" + strconv.Itoa(ps[1]),
+		Target:    "ws://127.0.0.1:" + strconv.Itoa(ps[0]),
+		Secret:    "verif-secret",
+		Closed:    make(chan struct{}),
+		Wg:        &sync.WaitGroup{},
+		HTTP:      lib.NewHTTPClient(),
+	}
+	cs := ttlcode.NewDefaultCodeStore().WithTTL(ttl)
+	ds := deny.New()
+	hub := crossbar.New()
+	denied := make(chan string, 64)
+	r.Wg.Add(2)
+	go crossbar.Crossbar(crossbar.Config{Listen: ps[0], Audience: r.Target, BufferSize: 128, CodeStore: cs, DenyStore: ds, Hub: hub, StatsEvery: time.Second}, r.Closed, denied, r.Wg)
+	go access.API(r.Closed, r.Wg, access.Config{CodeStore: cs, DenyStore: ds, DenyChannel: denied, Host: r.AccessURL, Hub: hub, Port: ps[1], Secret: r.Secret, Target: r.Target})
+	for _, p := range ps {
+		for i := 0; i < 1000; i++ {
+			c, err := net.DialTimeout("tcp", "127.0.0.1:"+strconv.Itoa(p), 100*time.Millisecond)
+			if err == nil {
+				c.Close()
+				break
+			}
+			time.Sleep(5 * time.Millisecond)
+		}
+	}
+	return r
 }
 
 func childE2E(inPath, outPath string) {
@@ -920,7 +1010,12 @@ func childE2E(inPath, outPath string) {
 		fmt.Fprintln(os.Stderr, err)
 		os.Exit(3)
 	}
-	rl := lib.StartRelay(lib.RelayOpts{})
+	var rl *lib.Relay
+	if f.TTL > 0 {
+		rl = startRelayTTL(f.TTL)
+	} else {
+		rl = lib.StartRelay(lib.RelayOpts{})
+	}
 	e := &e2e{rl: rl, adm: rl.AdminBearer("relay:admin")}
 	sem := make(chan struct{}, 6)
 	var wg sync.WaitGroup
@@ -961,13 +1056,14 @@ func childE2E(inPath, outPath string) {
 	}
 }
 
-func runE2EChild(cs []*Case, res *lib.Result, dir string, final bool) bool {
+func runE2EChild(cs []*Case, res *lib.Result, dir string, final bool, ttl int64) bool {
 	var f e2eFile
+	f.TTL = ttl
 	for _, c := range cs {
 		f.Cases = append(f.Cases, *c)
 	}
-	in := dir + "/e2e_in.json"
-	outp := dir + "/e2e_out.json"
+	in := fmt.Sprintf("%s/e2e_%d_in.json", dir, ttl)
+	outp := fmt.Sprintf("%s/e2e_%d_out.json", dir, ttl)
 	b, _ := json.Marshal(f)
 	os.MkdirAll(dir, 0o755)
 	os.WriteFile(in, b, 0o644)
@@ -1137,6 +1233,154 @@ func violate(res *lib.Result, v lib.Violation) { resMu.Lock(); res.Violate(v); r
 func count(res *lib.Result, k string)          { resMu.Lock(); res.Count(k); resMu.Unlock() }
 func note(res *lib.Result, n string)           { resMu.Lock(); res.Notes = append(res.Notes, n); resMu.Unlock() }
 
+// childSweep: a big store of live codes (long ttl: nothing ever expires) is swept continuously while
+// some codes are exchanged and some bookings purged. Every operation is atomic, so whatever the
+// interleaving the final store must be explainable by SOME order of the completed operations: a code
+// whose exchange succeeded is gone, no code of a purged booking is left, and every other code is
+// still there with its own token.
+func childSweep(seed int64) {
+	log.SetOutput(ioutil.Discard)
+	const nBookings, perBooking, nKeep, nExchange = 20, 1500, 120000, 6000
+	cs := ttlcode.NewDefaultCodeStore().WithTTL(3600)
+	keepTok := tokenFor(1, 0)
+	keepTok.SetBookingID("keep")
+	keep := make([]string, nKeep)
+	for i := range keep {
+		keep[i] = cs.SubmitToken(keepTok)
+	}
+	purge := make([][]string, nBookings)
+	for b := range purge {
+		tk := tokenFor(2, 0)
+		tk.SetBookingID(fmt.Sprintf("purge-%d", b))
+		for k := 0; k < perBooking; k++ {
+			purge[b] = append(purge[b], cs.SubmitToken(tk))
+		}
+	}
+	stop := make(chan struct{})
+	var sweeps int32
+	var sw sync.WaitGroup
+	sw.Add(1)
+	go func() {
+		defer sw.Done()
+		for {
+			select {
+			case <-stop:
+				return
+			default:
+			}
+			cs.CleanExpired()
+			atomic.AddInt32(&sweeps, 1)
+		}
+	}()
+	var wg sync.WaitGroup
+	won := make([]bool, nExchange)
+	for g := 0; g < 4; g++ {
+		wg.Add(1)
+		go func(g int) {
+			defer wg.Done()
+			for i := g; i < nExchange; i += 4 {
+				if _, err := cs.ExchangeCode(keep[i]); err == nil {
+					won[i] = true
+				}
+				if i%50 == 0 {
+					time.Sleep(time.Millisecond) // spread the exchanges over many sweeps
+				}
+			}
+		}(g)
+	}
+	wg.Add(1)
+	go func() {
+		defer wg.Done()
+		for b := 0; b < nBookings; b++ {
+			cs.DeleteByBookingID(fmt.Sprintf("purge-%d", b))
+			time.Sleep(15 * time.Millisecond)
+		}
+	}()
+	wg.Wait()
+	time.Sleep(50 * time.Millisecond)
+	close(stop)
+	sw.Wait()
+	// the reckoning, with nothing else running
+	twice, lostFirst, survivors, lost := 0, 0, 0, 0
+	for i := 0; i < nExchange; i++ {
+		if !won[i] {
+			lostFirst++ // a live code that nobody else presented was refused
+			continue
+		}
+		if _, err := cs.ExchangeCode(keep[i]); err == nil {
+			twice++
+		}
+	}
+	for b := range purge {
+		for _, code := range purge[b] {
+			if _, err := cs.ExchangeCode(code); err == nil {
+				survivors++
+			}
+		}
+	}
+	for i := nExchange; i < nExchange+3000; i++ {
+		if tk, err := cs.ExchangeCode(keep[i]); err != nil || tk.BookingID != "keep" {
+			lost++
+		}
+	}
+	fmt.Printf("{\"sweeps\":%d,\"twice\":%d,\"lost_first\":%d,\"survivors\":%d,\"lost\":%d}\n", sweeps, twice, lostFirst, survivors, lost)
+}
+
+func runSweepChild(res *lib.Result, seed int64) {
+	cmd := exec.Command(os.Args[0], "child-sweep", strconv.FormatInt(seed, 10))
+	var so, se bytes.Buffer
+	cmd.Stdout, cmd.Stderr = &so, &se
+	done := make(chan error, 1)
+	if err := cmd.Start(); err != nil {
+		note(res, "sweep child could not be started: "+err.Error())
+		return
+	}
+	go func() { done <- cmd.Wait() }()
+	var err error
+	select {
+	case err = <-done:
+	case <-time.After(60 * time.Second):
+		cmd.Process.Kill()
+		err = fmt.Errorf("watchdog: sweep child did not finish in 60 s")
+	}
+	count(res, "child:sweep")
+	rep := map[string]interface{}{"kind": "child-sweep", "seed": seed}
+	stderr := se.String()
+	if err != nil || strings.Contains(stderr, "fatal error:") || strings.Contains(stderr, "panic:") {
+		rep["stderr"] = truncate(stderr, 3000)
+		violate(res, lib.Violation{Clause: "store-crashed-under-concurrency", Case: -1, Replay: rep, Key: "store-crashed-under-concurrency:sweep",
+			Detail: fmt.Sprintf("continuous CleanExpired over 150 000 live codes while 6 000 are exchanged and 20 bookings purged: the process died (%v): %s", err, truncate(firstStack(stderr), 400))})
+		return
+	}
+	var out struct {
+		Sweeps    int `json:"sweeps"`
+		Twice     int `json:"twice"`
+		LostFirst int `json:"lost_first"`
+		Survivors int `json:"survivors"`
+		Lost      int `json:"lost"`
+	}
+	if json.Unmarshal(so.Bytes(), &out) != nil {
+		note(res, "sweep child left no result")
+		return
+	}
+	resMu.Lock()
+	res.CountN("child:sweep:sweeps-overlapping", out.Sweeps)
+	resMu.Unlock()
+	const setting = "CleanExpired running continuously over 150 000 live codes (ttl 1 h) while 6 000 codes are exchanged once each and 20 bookings of 1 500 codes are purged; afterwards, with nothing else running: "
+	if out.Twice > 0 {
+		violate(res, lib.Violation{Clause: "code-exchanged-twice", Case: -1, Replay: rep, Key: "code-exchanged-twice:concurrent-sweep",
+			Detail: fmt.Sprintf(setting+"%d codes whose exchange had succeeded were exchanged a second time (a sweep overlapping the exchange brought them back)", out.Twice)})
+	}
+	if out.Survivors > 0 {
+		violate(res, lib.Violation{Clause: "survived-purge", Case: -1, Replay: rep, Key: "survived-purge:concurrent-sweep",
+			Detail: fmt.Sprintf(setting+"%d codes of purged bookings could still be exchanged", out.Survivors)})
+	}
+	if out.Lost > 0 || out.LostFirst > 0 {
+		violate(res, lib.Violation{Clause: "live-code-lost", Case: -1, Replay: rep, Key: "live-code-lost:concurrent-sweep",
+			Detail: fmt.Sprintf(setting+"%d untouched live codes and %d first presentations of live codes were refused", out.Lost, out.LostFirst)})
+	}
+}
+
 // firstStack: the goroutine the runtime blames (the first stack after the fatal error line)
 func firstStack(stderr string) string {
 	i := strings.Index(stderr, "fatal error:")
@@ -1196,6 +1440,11 @@ func main() {
 		childConcurrent(seed)
 		return
 	}
+	if len(os.Args) > 2 && os.Args[1] == "child-sweep" {
+		seed, _ := strconv.ParseInt(os.Args[2], 10, 64)
+		childSweep(seed)
+		return
+	}
 	if len(os.Args) > 3 && os.Args[1] == "child-races" {
 		childRaces(os.Args[2], os.Args[3])
 		return
@@ -1224,6 +1473,9 @@ func main() {
 		case "child-concurrent":
 			replayChild = true
 			runChild(res, a.Seed)
+		case "child-sweep":
+			replayChild = true
+			runSweepChild(res, a.Seed)
 		case "child-e2e", "child-races":
 			cases = raw.Cases
 		default:
@@ -1244,6 +1496,19 @@ func main() {
 		}
 		for i := 0; i < nE2E; i++ {
 			cases = append(cases, genE2E(rng.Fork()))
+		}
+		// a relay assembled around a store with 2 s codes: a code presented on another topic's path is spent,
+		// however often and whenever it is presented there; expiry seen through the websocket
+		short := [][]Op{
+			{{K: "Submit", C: 1, T: 1, B: 1}, {K: "Wrong", C: 1, T: 0}, {K: "Exchange", C: 1}},
+			{{K: "Submit", C: 1, T: 1, B: 1}, {K: "Tick", Dt: 1}, {K: "Wrong", C: 1, T: 1}, {K: "Tick", Dt: 1}, {K: "Wrong", C: 1, T: 0},
+				{K: "Tick", Dt: 1}, {K: "Wrong", C: 1, T: 2}, {K: "Tick", Dt: 1}, {K: "Exchange", C: 1}},
+			{{K: "Submit", C: 1, T: 1, B: 1}, {K: "Submit", C: 2, T: 1, B: 2}, {K: "Tick", Dt: 2}, {K: "Exchange", C: 2}, {K: "Tick", Dt: 1}, {K: "Exchange", C: 1}},
+			{{K: "Submit", C: 1, T: 1, B: 1}, {K: "Submit", C: 2, T: 1, B: 1}, {K: "Tick", Dt: 1}, {K: "Wrong", C: 1, T: 2}, {K: "Exchange", C: 2},
+				{K: "Tick", Dt: 2}, {K: "Wrong", C: 1, T: 0}, {K: "Exchange", C: 1}},
+		}
+		for _, ops := range short {
+			cases = append(cases, Case{Kind: "e2e", TTL: 2, Ops: ops})
 		}
 		if a.Tier == "thorough" {
 			// the relay's own store has a 30 s lifetime: one code presented at +5 s, one at +32 s
@@ -1295,26 +1560,36 @@ func main() {
 			relayCases = append(relayCases, c)
 		}
 	}
-	if len(relayCases) > 0 {
+	// one relay child per code lifetime: the relay as shipped (30 s), and one assembled around a 2 s store
+	groups := map[int64][]*Case{}
+	for _, c := range relayCases {
+		ttl := int64(0)
+		if c.TTL != 30 {
+			ttl = c.TTL
+		}
+		groups[ttl] = append(groups[ttl], c)
+	}
+	for ttl, group := range groups {
 		wg.Add(1)
-		go func() {
+		go func(ttl int64, group []*Case) {
 			defer wg.Done()
-			pristine := make([]Case, len(relayCases))
-			for i, c := range relayCases {
+			pristine := make([]Case, len(group))
+			for i, c := range group {
 				pristine[i] = *c
 			}
-			if !runE2EChild(relayCases, res, a.Out, false) {
+			if !runE2EChild(group, res, a.Out, false, ttl) {
 				// set-up trouble (a session refused out of the blue, the child gone before any result):
 				// most likely the free ports were taken in between; a real defect shows again
-				for i, c := range relayCases {
+				for i, c := range group {
 					*c = pristine[i]
 				}
-				runE2EChild(relayCases, res, a.Out, true)
+				runE2EChild(group, res, a.Out, true, ttl)
 			}
-		}()
+		}(ttl, group)
 	}
 	if a.Replay == "" {
-		wg.Add(2)
+		wg.Add(3)
+		go func() { defer wg.Done(); runSweepChild(res, a.Seed) }()
 		go func() { defer wg.Done(); runChild(res, a.Seed) }()
 		go func() { defer wg.Done(); sweeperCheck(res) }()
 	}
